@@ -3,6 +3,7 @@ import ExoVerif.Model.Oracle
 import ExoVerif.Model.OracleNil
 import ExoVerif.Model.OracleParams
 import ExoVerif.Model.OracleParamsUpdate
+import ExoVerif.Model.OracleCheckSide
 /- driver for the C12/C13/C14 correspondence (ops `orc.*`, see harness/dom_oracle.go) -/
 namespace ExoVerif.Driver.Oracle
 open ExoVerif.Oracle ExoVerif.Driver
@@ -283,6 +284,21 @@ def step (s : State) (w : List String) : State × String :=
         -- deterministic source is configured (stored and in-memory parameters) the layer must BE `deliverTx`
         if atMostOneDet s && decide ((s', out) ≠ deliverTx s tx) then (s', "layer-mismatch|" ++ showOut out ++ "|" ++ fullObs s')
         else (s', showOut out ++ "|" ++ fullObs s')
+      | none => (s, "bad-op")
+    | _ => (s, "bad-op")
+  | "orc.sim" :: _cls :: sz :: ni :: rest0 =>
+    -- orc.sim class size nInfos (pk sg)* nMsgs msg*: a tx that was only SIMULATED (BaseApp.Simulate; the class the
+    -- real call returned is informative). Model/OracleCheckSide.lean: the handlers run on the check-side copy of the
+    -- aggregator context, the deliver side is what it was (Props/C13CheckSide.lean). The check-side context is
+    -- not carried by this driver's state (its results are not compared), so every simulation starts from a copy.
+    match pMany pSigInfo (parseNat! ni) rest0 with
+    | some (infos, nm :: rest) =>
+      match pMany pMsg (parseNat! nm) rest with
+      | some (msgs, _) =>
+        let tx : Tx := { size := parseNat! sz, infos := infos, msgs := msgs }
+        let n : ExoVerif.OracleCheckSide.Node := { deliver := s, check := none }
+        let s' := (ExoVerif.OracleCheckSide.simulateTx n s.store s.blockTime tx).1.deliver
+        (s', fullObs s')
       | none => (s, "bad-op")
     | _ => (s, "bad-op")
   | ["orc.updparams.rej", _why] =>
